@@ -14,6 +14,7 @@ Parts
   main      random molecules (see RULE)
   contract  the documented preconditions of the writer raise ValueError
 """
+import copy
 import io
 
 import numpy as np
@@ -733,6 +734,23 @@ def _run_main(case):
         raise Violation('second-write-differs', 'writing the same molecule a second time gives another text')
     facts = check_text(case, text)
     compared = check_against_read_itp(case, text, facts)
+    # the written file states the molecule as it is NOW: renumber the atoms of the object that was just written (same node
+    # keys, atom ids handed out in the opposite direction) and write it once more; the whole oracle applies to the new text
+    renumbered = False
+    if case['atomid_mode'] in ('inorder', 'perm', 'sparse') and len(case['nodes']) >= 2:
+        case2 = copy.deepcopy(case)
+        ids = [node['atomid'] for node in case['nodes']]
+        for node, atomid in zip(case2['nodes'], reversed(ids)):
+            node['atomid'] = atomid
+            mol.nodes[node['key']]['atomid'] = atomid
+        third = io.StringIO()
+        write_molecule_itp(mol, third, **kwargs)
+        try:
+            check_text(case2, third.getvalue())
+        except Violation as viol:
+            raise Violation('rewrite-after-renumbering:' + viol.bucket,
+                            'after the molecule was written, its atom ids reversed and written again: ' + viol.message)
+        renumbered = True
 
     nodes = case['nodes']
     n = len(nodes)
@@ -743,6 +761,8 @@ def _run_main(case):
         classes.append('written-order-differs-from-node-order')
     if case['atomid_mode'] in ('perm', 'sparse') and facts['order'] != list(range(n)):
         classes.append('atomid-perm-nonidentity')
+    if renumbered:
+        classes.append('rewritten-after-renumbering')
     if case['atomid_mode'] == 'partial':
         classes.append('atomid-partial')
     if case['atomid_mode'] == 'none':
